@@ -11,6 +11,11 @@ TEXT = {
         "note": "Trusted: Lean kernel, hook + harness, Node 20. Scope analysis, slot assignment and the non-minifying renamer are exercised, not modelled.",
         "technique": "Lean 4 proof on hand-written model + differential correspondence; Node run-time search; text search",
     },
+    "C16": {
+        "level": "PARTIAL. One Lean theorem: flattening an index source map never asks for a negative-length slice and never lets sourcesContent outgrow sources, for every list of sections (tied by correspondence with the real ParseSourceMap, recovered panics included). The property as a whole (all bytes, all options, no panic/hang) is NOT proved: it is searched by deterministic structure-aware mutation of ~21000 literals from the repository's own parser tests across all loaders and option sets, each case in a worker process with address-space and time limits. One defect found and fixed (renamer quadratic/cubic on nested scopes), one known finding (CSS deep nesting quadratic).",
+        "note": "Trusted: Lean kernel, harness, worker limits. A fuzz search cannot show absence of crashes; the theorem covers one arithmetic crash site only.",
+        "technique": "Lean 4 proof on hand-written model + differential correspondence (one crash site); mutation-fuzz search in isolated workers",
+    },
     "C17": {
         "level": "Lean theorems over a model of a build context's file-system effects, for every table, request and history: failed, cancelled and non-writing builds write nothing; no written path is an input unless overwriting was allowed; never two contents for one path; writes are reported outputs; deletions are stale outputs of the same context (also as an invariant over whole rebuild histories). Tied by correspondence: real contexts on real directories, tree snapshots before/after every Rebuild vs the model's predicted deletions/writes/next table. Path identity and output placement are a search on real directories with symlinks, coinciding outdir/outbase, hash-less templates, assets, plugins. One defect found and fixed (symlinked outdir), one known finding (on-end errors come after the write).",
         "note": "Trusted: Lean kernel, harness snapshots (mtime granularity), Linux file system semantics. Windows path canonicalisation and the serve/watch paths are not covered.",
